@@ -566,7 +566,7 @@ fn check_reference(case: &Case, info: &SourceInfo, out: &[u8], stats: &mut RefSt
 
 //------------ schedule generators ---------------------------------------------------------
 
-use Step::{Deliver as D, Grant as G, Notify as N, Settle as S, Unlimit as U};
+use Step::{Deliver as D, DropSender as X, Grant as G, Notify as N, Settle as S, Unlimit as U};
 
 fn sched(steps: Vec<Step>) -> Schedule {
     Schedule { credit: None, settle_first: true, steps }
@@ -577,6 +577,11 @@ fn class_a(len: usize, full: bool) -> Vec<(&'static str, Schedule)> {
     let mut v = Vec::new();
     for c in 0..=len {
         v.push(("a1:cut,settle,notify", sched(vec![D(c), S, N, S])));
+        if c == 0 || c == len / 2 {
+            // the last notification sender goes away before / in the middle of the stream
+            v.push(("a9:sender-dropped", sched(vec![D(c), S, X, S])));
+            v.push(("a9:notify-then-sender-dropped", sched(vec![D(c), S, N, S, X, S])));
+        }
         if c == 0 || c == len {
             continue;
         }
@@ -686,8 +691,16 @@ fn random_schedule(rng: &mut Rng, len: usize) -> Schedule {
     let mut steps = Vec::new();
     let mut off = 0usize;
     let mut guard = 0;
+    let drop_at = if rng.chance(1, 8) { Some(rng.below(len as u64 + 1) as usize) } else { None };
+    let mut dropped = false;
     while off < len && guard < 400 {
         guard += 1;
+        if let Some(at) = drop_at {
+            if !dropped && off >= at {
+                steps.push(X);
+                dropped = true;
+            }
+        }
         let mut acts: Vec<u8> = vec![0];
         if rng.chance(p_notify, 100) {
             acts.push(1);
